@@ -24,7 +24,7 @@ SPEC = dict(
          "analyzer: case = generated directory (any subset of ~45 marker names incl. pattern markers, markers created as directories, near-miss "
          "decoys, random non-marker names, package.json of 16 shapes, Makefile text of 17 line shapes, LF/CRLF); non-trivial = distinct listing "
          "(names + package.json/Makefile bytes) with >= 2 marker classes or a package.json or a non-empty Makefile.",
-    floors=T({"cli-context-pairs-in-project": 80, "cli-context-raised-a-score": 20, "evaluations": 11000, "distinct_nontrivial": 3500, "pairs-nlp-off": 3000, "pairs-nlp-on": 3000, "pairs-pipeline": 3000,
+    floors=T({"cli-context-pairs-in-project": 80, "cli-context-raised-a-score": 6, "evaluations": 11000, "distinct_nontrivial": 3500, "pairs-nlp-off": 3000, "pairs-nlp-on": 3000, "pairs-pipeline": 3000,
               "boost-effective": 2000, "shipped": 150, "entries-unrelated-checked": 20000, "entries-related-checked": 20000,
               "dirs": 1900, "dirs-generic": 200, "dirs-multi": 700, "package-json-valid": 100, "package-json-broken": 100, "makefile": 250},
              {"evaluations": 110000, "distinct_nontrivial": 35000, "pairs-nlp-off": 30000, "pairs-nlp-on": 30000, "pairs-pipeline": 30000,
